@@ -112,8 +112,8 @@ type brVariant struct {
 var brVariants = []brVariant{
 	{"singleP", func(l int) []uint64 { return []uint64{nttPrime(l, 1<<55, true, 0)} }, func(l int) []uint64 { return []uint64{nttPrime(l, 1<<58, true, 0)} },
 		0, true, true, func(l int) uint64 { return nttPrime(l, 1<<20, true, 0) }},
-	{"32bit", func(l int) []uint64 { return []uint64{nttPrime(l, 1<<29, true, 0)} }, nil,
-		1, true, false, func(l int) uint64 { return 12289 }},
+	{"32bit", func(l int) []uint64 { return []uint64{nttPrime(l, 1<<28, true, 0)} }, nil,
+		2, true, false, func(l int) uint64 { return 12289 }},
 	{"noP", func(l int) []uint64 { return []uint64{nttPrime(l, 1<<55, true, 0)} }, nil,
 		8, false, true, func(l int) uint64 { return nttPrime(l, 1<<20, true, 0) }},
 	{"multipleP", func(l int) []uint64 { return []uint64{nttPrime(l, 1<<40, true, 0), nttPrime(l, 1<<40, true, 1)} },
@@ -126,10 +126,12 @@ type brConfig struct {
 	v               brVariant
 	h               int
 	a, b            float64
+	leaf            int // index into brLeaves
 }
 
 func (cf brConfig) name() string {
-	return fmt.Sprintf("blindrot/%s/NLWE=%d/NBR=%d/h=%d/[%g,%g]", cf.v.name, 1<<cf.logNLWE, 1<<cf.logNBR, cf.h, cf.a, cf.b)
+	return fmt.Sprintf("blindrot/%s/NLWE=%d/NBR=%d/h=%d/[%g,%g]/%s", cf.v.name, 1<<cf.logNLWE, 1<<cf.logNBR, cf.h, cf.a, cf.b,
+		brLeaves(1<<cf.logNLWE, 1<<cf.logNBR)[cf.leaf].name)
 }
 
 func (cf brConfig) params() (lwe, br rlwe.Parameters) {
@@ -335,10 +337,8 @@ func brScenario(cf brConfig) engine.Scenario {
 		lwe, br := cf.params()
 		nLWE, nBR := lwe.N(), br.N()
 		twoN := 2 * nBR
-		leaves := brLeaves(nLWE, nBR)
-		li := c.Choose(len(leaves), "slots")
-		leaf := leaves[li]
-		uni.Seed(c, name, li)
+		leaf := brLeaves(nLWE, nBR)[cf.leaf]
+		uni.Seed(c, name)
 
 		skLWE := rlwe.NewKeyGenerator(lwe).GenSecretKeyNew()
 		skBR := rlwe.NewKeyGenerator(br).GenSecretKeyNew()
@@ -375,14 +375,20 @@ func brScenario(cf brConfig) engine.Scenario {
 		}
 
 		// noise of one gadget step (external product or key switch) with rows of noise ≤ Be
+		// (library keys: truncation bound of the error distribution; harness-built RGSW keys: ‖e‖∞ ≤ 3 by construction,
+		// the Galois keys are the library's in both cases)
 		Be := big.NewInt(int64(br.NoiseBound()))
 		stepBound := extProdBound(br, rec.brk[0], Be, sBRNorm1)
+		epBound := stepBound
+		if src == "harness" {
+			epBound = extProdBound(br, rec.brk[0], big.NewInt(3), sBRNorm1)
+		}
 
 		eval := blindrot.NewEvaluator(br, lwe)
 		enc := rlwe.NewEncryptor(lwe, skLWE)
 		qLWE := lwe.Q()[0]
 		evals := 0
-		unique, ambiguous := 0, 0
+		unique, ambiguous, vacuous := 0, 0, 0
 		for ci, call := range leaf.calls {
 			// LWE plaintext: slot i holds round(k_i·Q/2N)
 			pt := rlwe.NewPlaintext(lwe, 0)
@@ -447,12 +453,14 @@ func brScenario(cf brConfig) engine.Scenario {
 				seg := segs[t]
 				// noise: every external product and every key switch adds at most stepBound; monomial products
 				// and automorphisms permute the noise already present.
-				tol := new(big.Int).Mul(stepBound, big.NewInt(int64(seg.extProducts+seg.keySwitches)))
+				tol := new(big.Int).Mul(epBound, big.NewInt(int64(seg.extProducts)))
+				tol.Add(tol, new(big.Int).Mul(stepBound, big.NewInt(int64(seg.keySwitches))))
 				tol.Add(tol, big.NewInt(4)) // float rounding of scale·f(x) in the test polynomial
 				if new(big.Int).Lsh(tol, 3).Cmp(new(big.Int).Lsh(big.NewInt(1), uint(scaleLog))) > 0 {
+					// worst-case noise above scale/8: grid values cannot be told apart, nothing to judge
 					c.Cover("vacuous-config", "blindrot/"+cf.v.name)
-					c.Skip("worst-case noise bound > scale/8")
-					return
+					vacuous++
+					continue
 				}
 				if r.IsNTT != br.NTTFlag() {
 					c.Fail("C20/blindrot/Evaluate/result-domain", "%s: result IsNTT=%v with NTTFlag=%v", name, r.IsNTT, br.NTTFlag())
@@ -576,6 +584,10 @@ func brScenario(cf brConfig) engine.Scenario {
 				c.Outcome(cf.v.name, brFuncs[fi].name, where, matches[0] == ((k%twoN)+twoN)%twoN)
 			}
 		}
+		if evals > 0 && vacuous == evals {
+			c.Skip("worst-case noise bound > scale/8")
+			return
+		}
 		c.Count(evals)
 		c.Cover("br-variant", cf.v.name)
 		c.Cover("br-pair", fmt.Sprintf("%d,%d", nLWE, nBR))
@@ -640,15 +652,94 @@ func rotationMatches(R []*big.Int, lut []*big.Int, k int, tol *big.Int) bool {
 func brScenarios(tier string) []engine.Scenario {
 	var scs []engine.Scenario
 	pairs := [][2]int{{4, 5}, {4, 6}, {5, 7}}
+	variants := brVariants
+	if tier == "thorough" {
+		// the same four paths with the NTT flags of both parameter sets flipped, and a digit-decomposed single-P key
+		for _, v := range brVariants {
+			w := v
+			w.name, w.nttBR, w.nttLWE = v.name+"-flip", !v.nttBR, !v.nttLWE
+			variants = append(variants, w)
+		}
+		w := brVariants[0]
+		w.name, w.pw2 = "singleP-pw2=16", 16
+		variants = append(variants, w)
+	}
 	for _, pr := range pairs {
 		n := 1 << pr[0]
-		for _, v := range brVariants {
+		for _, v := range variants {
+			base := v.name
+			if i := len("32bit"); len(base) >= i && base[:i] == "32bit" && pr[1] > 6 {
+				continue // q < 2^29 leaves no room for the worst-case noise of 32 products at N=128: nothing could be judged
+			}
 			for _, h := range []int{1, 2, n / 4, n / 2} {
+				leaves := brLeaves(n, 1<<pr[1])
+				scs = append(scs, brKeyScenario(brConfig{pr[0], pr[1], v, h, -1, 1, 0}))
 				for _, iv := range [][2]float64{{-1, 1}, {-4, 4}} {
-					scs = append(scs, brScenario(brConfig{pr[0], pr[1], v, h, iv[0], iv[1]}))
+					if tier != "thorough" && pr[1] == 7 && (h == 2 || h == n/4) {
+						continue // quick: the largest ring pair with the extreme weights only
+					}
+					for li := range leaves {
+						scs = append(scs, brScenario(brConfig{pr[0], pr[1], v, h, iv[0], iv[1], li}))
+					}
 				}
 			}
 		}
 	}
 	return scs
+}
+
+// brKeyScenario judges blindrot.GenEvaluationKeyNew on its own: one RGSW key per LWE secret coefficient, each an
+// RGSW encryption of X^{s_i} with well-formed rows, and the Galois keys for 5^1..5^w (w = 10, the window of the
+// algorithm) and for −5.
+func brKeyScenario(cf brConfig) engine.Scenario {
+	name := fmt.Sprintf("brkeys/%s/NLWE=%d/NBR=%d/h=%d", cf.v.name, 1<<cf.logNLWE, 1<<cf.logNBR, cf.h)
+	return engine.Scenario{Name: name, Bound: -1, Fn: func(c *engine.Chooser) {
+		lwe, br := cf.params()
+		uni.Seed(c, name)
+		skLWE := rlwe.NewKeyGenerator(lwe).GenSecretKeyNew()
+		skBR := rlwe.NewKeyGenerator(br).GenSecretKeyNew()
+		sLWE, _ := secretInts(lwe, skLWE)
+		sBR, _ := secretInts(br, skBR)
+		evkParams := rlwe.EvaluationKeyParameters{BaseTwoDecomposition: utils.Pointy(cf.v.pw2)}
+		keys := blindrot.GenEvaluationKeyNew(br, skBR, lwe, skLWE, evkParams)
+		if len(keys.BlindRotationKeys) != lwe.N() {
+			c.Fail("C20/blindrot/GenEvaluationKeyNew/rgsw-key-count", "%s: %d RGSW keys for %d secret coefficients", name, len(keys.BlindRotationKeys), lwe.N())
+			return
+		}
+		Be := big.NewInt(int64(br.NoiseBound()))
+		for i, k := range keys.BlindRotationKeys {
+			if k.LevelQ() != br.MaxLevelQ() || k.LevelP() != br.MaxLevelP() || k.Value[0].BaseTwoDecomposition != cf.v.pw2 {
+				c.Fail("C20/blindrot/GenEvaluationKeyNew/rgsw-key-shape", "%s: key %d at levels (%d,%d), base-two %d", name, i, k.LevelQ(), k.LevelP(), k.Value[0].BaseTwoDecomposition)
+				continue
+			}
+			if _, rowMax := rgswErrs(br, k, sBR, monomialSmall(br.N(), int(sLWE[i]))); rowMax.Cmp(Be) > 0 {
+				sig := "C20/blindrot/GenEvaluationKeyNew/rgsw-key-is-not-RGSW(X^s_i)"
+				if br.MaxLevelP() < 0 {
+					sig = "C20/rgsw/Encrypt/row-noise/levelP=-1" // same defect as in the rgswenc/ scenarios: one signature
+				}
+				c.Fail(sig, "%s: RGSW key %d (s_i=%d) has a row that decrypts X^{s_i} with error 2^%d, noise bound %v", name, i, sLWE[i], rowMax.BitLen(), Be)
+			}
+		}
+		want := map[uint64]bool{br.RingQ().NthRoot() - ring.GaloisGen: true}
+		for v := 1; v <= 10; v++ {
+			want[br.GaloisElement(v)] = true
+		}
+		got := map[uint64]bool{}
+		for _, gk := range keys.AutomorphismKeys {
+			got[gk.GaloisElement] = true
+		}
+		for g := range want {
+			if !got[g] {
+				c.Fail("C20/blindrot/GenEvaluationKeyNew/galois-key-missing", "%s: no Galois key for element %d", name, g)
+			}
+		}
+		for g := range got {
+			if !want[g] {
+				c.Fail("C20/blindrot/GenEvaluationKeyNew/galois-key-superfluous", "%s: Galois key for element %d is never used by the algorithm", name, g)
+			}
+		}
+		c.Count(lwe.N() + len(keys.AutomorphismKeys))
+		c.Cover("brkeys", cf.v.name)
+		c.Outcome(name, len(keys.AutomorphismKeys))
+	}}
 }
